@@ -331,6 +331,10 @@ func runC11(run *Run, replay string) {
 		for i := 0; i < np; i++ {
 			paths = append(paths, lang.Path{Path: fmt.Sprintf("p%d", i), LanguageID: "hcl"})
 		}
+		if wi%4 == 3 && np >= 2 {
+			// two paths for one directory, told apart by the language only (a module and its test files)
+			paths[1] = lang.Path{Path: paths[0].Path, LanguageID: "hcl-test"}
+		}
 		w := newWorld()
 		type pw struct {
 			pd *PathData
@@ -358,6 +362,7 @@ func runC11(run *Run, replay string) {
 			maxLine := 12
 			os := g.origins(2+r.Intn(6), paths, maxLine)
 			pd := w.AddPath(p.Path, schema.NewBodySchema(), map[string]string{}, nil)
+			pd.Path = p
 			pd.Ctx.ReferenceTargets = ts
 			pd.Ctx.ReferenceOrigins = os
 			pd.Fail = i > 0 && r.Intn(3) == 0
@@ -485,7 +490,7 @@ func runC11(run *Run, replay string) {
 				rts := res.Val.(decoder.ReferenceTargets)
 				if po, ok := o.(reference.PathOrigin); ok {
 					for _, rt := range rts {
-						if rt.OriginRange == o.OriginRange() && !rt.Path.Equals(po.TargetPath) && rt.Range.Filename != callerSupplied {
+						if rt.OriginRange == o.OriginRange() && !samePath(rt.Path, po.TargetPath) && rt.Range.Filename != callerSupplied {
 							// another origin at the same range may legitimately resolve locally: only flag
 							// when no other origin of this path shares the range
 							shared := false
@@ -513,7 +518,7 @@ func runC11(run *Run, replay string) {
 					back := w.Dec.ReferenceOriginsTargetingPos(rt.Path, rt.DefRangePtr.Filename, y)
 					found := false
 					for _, b := range back {
-						if b.Path.Equals(x.pd.Path) && b.Range == o.OriginRange() {
+						if samePath(b.Path, x.pd.Path) && b.Range == o.OriginRange() {
 							found = true
 						}
 					}
@@ -603,7 +608,7 @@ func collectedWorldOracle(run *Run, n int) {
 
 func targetsOfPath(w *World, p lang.Path) reference.Targets {
 	for _, pd := range w.Paths {
-		if pd.Path.Equals(p) {
+		if samePath(pd.Path, p) {
 			return pd.Ctx.ReferenceTargets
 		}
 	}
@@ -611,3 +616,6 @@ func targetsOfPath(w *World, p lang.Path) reference.Targets {
 }
 
 var _ = sort.Strings
+
+// samePath: directory and language (not the library's own Path.Equals, which is under test)
+func samePath(a, b lang.Path) bool { return a.Path == b.Path && a.LanguageID == b.LanguageID }
